@@ -10,6 +10,7 @@ import (
 	"strings"
 
 	kv "github.com/XiXi-2024/xixi-kv"
+	"github.com/XiXi-2024/xixi-kv/vsim/vos"
 	"github.com/XiXi-2024/xixi-kv/vsim/vrt"
 )
 
@@ -379,7 +380,10 @@ func (r *Runner) doMerge() {
 	if r.C.Prop == "C06" {
 		r.inc("merge_attempts")
 	}
-	if !r.call("Merge", func() { err = r.DB.Merge() }) {
+	r.extra["inMerge"] = true
+	ok := r.call("Merge", func() { err = r.DB.Merge() })
+	r.extra["inMerge"] = false
+	if !ok {
 		return
 	}
 	// Merge's return value is not part of the C14 transcript: whether the rewritten records fit below the marker id
@@ -900,6 +904,24 @@ func (r *Runner) RunSeq() {
 	if r.C.Hostile {
 		r.extra["arena"] = newArena()
 	}
+	if r.C.FaultAt > 0 {
+		// fault arm: the n-th mutating call inside the merge side directory fails with an I/O error
+		n := 0
+		r.FS.FaultFn = func(k vos.Kind, rel string) error {
+			// only while Merge itself runs: the statement says what Merge must do on an error, nothing about adoption
+			if in, _ := r.extra["inMerge"].(bool); !in || !strings.HasPrefix(rel, "db-merge") {
+				return nil
+			}
+			switch k {
+			case vos.KOpen, vos.KWrite, vos.KSync, vos.KMSync, vos.KTruncate, vos.KMkdir, vos.KMap:
+				n++
+				if n == r.C.FaultAt {
+					return vos.ErrInjected()
+				}
+			}
+			return nil
+		}
+	}
 	pol := r.C.Sched
 	if pol.Mode == "" {
 		pol.Mode = "seq"
@@ -1002,6 +1024,9 @@ func (r *Runner) afterStep(i int, op *Op) {
 }
 
 func (r *Runner) finalChecks() {
+	for k, v := range r.FS.FaultsFired {
+		r.add("fault_io_error_"+k, int64(v))
+	}
 	switch r.C.Prop {
 	case "C01", "C15", "C14", "C05", "C10":
 		r.judging = r.C.Prop != "C10"
